@@ -26,7 +26,10 @@ import (
 	"sort"
 	"strings"
 	"sync"
+	"sync/atomic"
 	"syscall"
+
+	"golang.org/x/sys/unix"
 
 	"github.com/mutagen-io/mutagen/pkg/synchronization/core"
 
@@ -471,3 +474,49 @@ func copyFile(dst, src string) error {
 	}
 	return err
 }
+
+// replaceSameMeta replaces the regular file at full by a NEW inode (create
+// under another name, then rename over) that has the same size, the same
+// nanosecond mtime and the same mode but different content. It reports
+// whether exactly that happened (the inode number is asserted to differ).
+// started tells whether the disk was modified at all.
+func replaceSameMeta(full string) (ok bool, started bool) {
+	var st syscall.Stat_t
+	if syscall.Lstat(full, &st) != nil || st.Mode&syscall.S_IFMT != syscall.S_IFREG || st.Size == 0 {
+		return false, false
+	}
+	data, err := os.ReadFile(full)
+	if err != nil || int64(len(data)) != st.Size {
+		return false, false
+	}
+	for i := range data { // different content, same length
+		data[i] ^= 0x55
+	}
+	tmp := filepath.Join(filepath.Dir(full), fmt.Sprintf("verif-twin-%d-%d", os.Getpid(), atomic.AddInt64(&twinCounter, 1)))
+	if os.WriteFile(tmp, data, 0o600) != nil {
+		os.Remove(tmp)
+		return false, false
+	}
+	var tst syscall.Stat_t
+	if syscall.Lstat(tmp, &tst) != nil || tst.Ino == st.Ino {
+		os.Remove(tmp)
+		return false, false
+	}
+	os.Chmod(tmp, os.FileMode(st.Mode&0o7777))
+	ts := []unix.Timespec{{Sec: st.Atim.Sec, Nsec: st.Atim.Nsec}, {Sec: st.Mtim.Sec, Nsec: st.Mtim.Nsec}}
+	if unix.UtimesNanoAt(unix.AT_FDCWD, tmp, ts, unix.AT_SYMLINK_NOFOLLOW) != nil {
+		os.Remove(tmp)
+		return false, false
+	}
+	if os.Rename(tmp, full) != nil {
+		os.Remove(tmp)
+		return false, false
+	}
+	var nst syscall.Stat_t
+	if syscall.Lstat(full, &nst) != nil || nst.Ino == st.Ino || nst.Size != st.Size || nst.Mtim != st.Mtim || nst.Mode != st.Mode {
+		return false, true
+	}
+	return true, true
+}
+
+var twinCounter int64
